@@ -97,7 +97,7 @@ def flag_vars(func):
         for e in func.events():
             k = e["k"]
             if k == "decl" and e.get("var") in cands:
-                ndecl[e["var"]] = ndecl.get(e["var"], 0) + 1
+                ndecl.setdefault(e["var"], set()).add(e.get("vd") or "%s:%s" % (e.get("l"), e.get("c")))
             elif k == "assign":
                 lhs = e.get("lhs") or {}
                 if (lhs.get("v") in cands and (lhs.get("t") or "").strip() != lhs["v"].split("@")[0]) or e.get("op") != "=" and lhs.get("v") in cands:
@@ -120,7 +120,9 @@ def flag_vars(func):
                     for r_ in e.get("refs") or []:
                         if r_.startswith("v:"):
                             cands.discard(r_[2:])
-        cands = {v for v in cands if ndecl.get(v, 0) == 1}
+        # one source variable per name (the same declaration may occur several times in a flattened function: each occurrence
+        # starts it afresh); two different variables of one name (shadowing) are not followed
+        cands = {v for v in cands if len(ndecl.get(v, ())) == 1}
     func.__dict__["_flag_vars"] = cands
     return cands
 
@@ -157,12 +159,16 @@ def run_automaton(func, init, step, edge=None, start=None, start_idx=0, limit=20
     def edge2(st, blk, k, sid):
         us, fl = st
         t = blk.term or {}
-        if fl and t.get("k") in ("if", "while", "for", "do", "land", "lor", "cond") and not t.get("cmp") and len(blk.succs) == 2:
+        if t.get("k") in ("if", "while", "for", "do", "land", "lor", "cond") and not t.get("cmp") and len(blk.succs) == 2:
             v_ = (t.get("core") or {}).get("v")
             if v_ in flags and ((t.get("core") or {}).get("t") or "").strip() == v_.split("@")[0]:
                 val = dict(fl).get(v_)
                 if val is not None and k != (0 if val != bool(t.get("neg")) else 1):
                     return None
+                if val is None:
+                    # not known yet (initialised from an expression): taking this edge tells what it is, and it stays that until it
+                    # is written again -- a later test of the same local goes the same way
+                    fl = tuple(sorted(list(fl) + [(v_, (k == 0) != bool(t.get("neg")))]))
         if edge is not None:
             us = edge(us, blk, k, sid)
             if us is None:
